@@ -144,7 +144,7 @@ struct State {
   int fd = -1;
   uint64_t evaluations = 0, violations = 0;
   std::map<std::string, uint64_t> counters;
-  std::unordered_set<uint64_t> classes;
+  std::unordered_set<uint64_t> classes, nontrivial_cases;
   std::vector<std::string> samples;
   std::unordered_map<std::string, unsigned> viol_per_sig;
   // crash capture: preformatted line for the current case
@@ -208,7 +208,14 @@ inline void cpu_budget(unsigned seconds) {
   setitimer(ITIMER_PROF, &tv, nullptr);
 }
 inline void count(const std::string& name, uint64_t n = 1) { st().counters[name] += n; }
-inline void klass(uint64_t h) { auto& c = st().classes; if (c.size() < 2000000) c.insert(h); }
+// Monitors call klass(h) for a case that is non-trivial by their stated rule, h = its class. Besides the class, the case
+// itself (hash of its serialised form, as recorded by set_case) is remembered, so that evidence can report the measured
+// number of DISTINCT non-trivial cases, not only the number of classes.
+inline void klass(uint64_t h) {
+  State& s = st();
+  if (s.classes.size() < 2000000) s.classes.insert(h);
+  if (s.curlen && s.nontrivial_cases.size() < 6000000) s.nontrivial_cases.insert(fnv(std::string_view(s.cur, s.curlen)));
+}
 inline void sample(const std::string& s, size_t cap = 12) {
   auto& v = st().samples; if (v.size() < cap) v.push_back(s);
 }
@@ -226,7 +233,7 @@ inline void violation(const std::string& sig, const Case& c, const std::string& 
 inline void finish(const std::map<std::string, std::string>& extra_json = {}) {
   State& s = st();
   std::string o = "{\"t\":\"stat\",\"evaluations\":" + std::to_string(s.evaluations) +
-                  ",\"violations\":" + std::to_string(s.violations) + ",\"counters\":{";
+                  ",\"violations\":" + std::to_string(s.violations) + ",\"distinct_cases\":" + std::to_string(s.nontrivial_cases.size()) + ",\"counters\":{";
   bool first = true;
   for (auto& [k, v] : s.counters) { if (!first) o += ","; first = false; o += jstr(k) + ":" + std::to_string(v); }
   o += "},\"sigs\":{";
